@@ -69,7 +69,8 @@ def gen(rng, idx, tier):
             if rng.random() < p_fault:
                 ops.append(dict(op="fault", kind="cholesky_fail", arm=1))
             ops.append(dict(op="setA", o=o, seed=int(rng.integers(1 << 30)),
-                            pattern=str(rng.choice(["full", "banded", "random", "block", "bothdec", "rowdec", "coldec"]))))
+                            pattern=str(rng.choice(["full", "banded", "random", "block", "bothdec", "rowdec", "coldec"])),
+                            scale=float(rng.choice([1.0, 1.0, 1.0, 1e-10, 1e-4, 1e6])), pert=bool(rng.random() < 0.2)))
         elif r < 0.4:
             ops.append(dict(op="setb", o=o, seed=int(rng.integers(1 << 30)), k=int(rng.choice([0, 0, 1, 2, 3])),
                             cplx=bool(rng.random() < p_cplx_rhs)))
@@ -81,6 +82,7 @@ def gen(rng, idx, tier):
         ops.append(dict(op="resp", o=0))
     return dict(kind=kind, cplx=cplx, cls=cls, storage=storage, solver=solver, n=n, nobj=nobj, flags=flags, part=part,
                 pseed=int(rng.integers(1 << 30)), a0=int(rng.integers(1 << 30)), b0=int(rng.integers(1 << 30)),
+                scale0=float(rng.choice([1.0, 1.0, 1e-10, 1e5])),
                 k0=int(rng.choice([0, 0, 2])), ops=ops)
 
 
@@ -173,7 +175,7 @@ class Inst:
             self.sR = S("Ared")
             self.mod = pym.StaticCondensation(self.sA, self.sR, main=self.m, free=self.f, **kw)
             self.outs = [self.sR]
-        self.a_seed, self.pattern = case["a0"] + oi, "full"
+        self.a_seed, self.pattern, self.scale, self.pert = case["a0"] + oi, "full", float(case.get("scale0", 1.0)), 0
         self.b_seed, self.k, self.bc = case["b0"] + oi, case["k0"], False
         self.set_A()
         self.set_b()
@@ -181,10 +183,17 @@ class Inst:
     def mdesc(self):
         c = self.case
         return dict(n=self.n, cls=c["cls"], cplx=c["cplx"], sparse=None if c["storage"] == "dense" else c["storage"],
-                    seed=self.a_seed, pattern=self.pattern)
+                    seed=self.a_seed, pattern=self.pattern, scale=self.scale)
 
     def set_A(self):
         self.A = G.make_matrix(self.mdesc())
+        if self.pert:
+            # a small relative change of every entry (1e-6): a new matrix, however close to the previous one
+            R = sub_rng(0x72, self.a_seed, self.pert).uniform(-1, 1, self.A.shape)
+            if sps.issparse(self.A):
+                self.A = self.A.multiply(1.0 + 1e-6 * R).asformat(self.A.format)
+            else:
+                self.A = self.A * (1.0 + 1e-6 * (R + R.T) / 2)
         self.sA.state = self.A.copy()
 
     def set_b(self):
@@ -242,7 +251,11 @@ def run(case):
             continue
         I = insts[op.get("o", 0) % nobj]
         if op["op"] == "setA":
-            I.a_seed, I.pattern = op["seed"], op["pattern"]
+            if op.get("pert") and I.nresp > 0:
+                I.pert += 1          # same matrix, perturbed relatively by 1e-6
+            else:
+                I.a_seed, I.pattern, I.pert = op["seed"], op["pattern"], 0      # (the scale is fixed per instance: the previous
+                # solution is the next initial guess, a jump of 1e16 in magnitude is not a meaningful history)
             if I.nresp == 0 and not (I.kind == "LinSolve" and I.pattern in ("bothdec", "rowdec", "coldec")):
                 # the solver is chosen from the first matrix: it must be generic for its class (a few decoupled dofs keep a
                 # LinSolve matrix generic: it is neither diagonal nor of another symmetry class)
